@@ -208,10 +208,8 @@ class OperatorMapper:
         elif isinstance(left, str) and not isinstance(right, str):
             expression = func.instr(literal(left), right) > 0
         elif not isinstance(left, str) and isinstance(right, str):
-            if hasattr(left, "contains"):
-                expression = left.contains(right)
-            else:
-                expression = left.like("%" + right + "%")
+            # LIKE is case-insensitive on some back ends (SQLite), a substring test is not.
+            expression = func.instr(left, right) > 0
         elif isinstance(left, str) and isinstance(right, str):
             expression = literal(right in left)
         else:
